@@ -4041,3 +4041,217 @@ def rn_translate_step(src, name, cfg, lean_name, places, presets, header, result
     ctx.in_loop, ctx.post = True, post
     tree = rn_exec(list(loop[1]), env, ctx)
     return "%s\ndef %s %s :\n    %s :=\n%s\n" % (header, lean_name, "{%s : Type} (sem : CmdSem %s) (is : List Instruction) (labels : List (Str × Nat))\n    (halt : Nat → %s → Bool) (%s : RunState %s)" % (cfg.world_ty, cfg.world_ty, cfg.world_ty, rs, cfg.world_ty), result_ty, rn_render(tree, 1))
+
+# =============================================================================================
+# seventh executor (`sb_…`): a function that BUILDS A TEXT from a list of values and hands it on
+# (`parse` of duckscript_sdk/src/utils/eval.rs — the C09 path).  It uses the fourth executor's
+# parser (`fparse_block`) and accepts exactly this shape:
+#
+#     let mut BUF = String::new();
+#     for X in XS { body }                  body: if / else if / else over conditions on X,
+#                                                 BUF.push('c'); BUF.push_str("text" | X | &X);
+#                                                 BUF.push_str(&format!("..{}..", X));
+#     let L = BUF.replace(p, "r")….;        (any number of `let`s; p one character; `.to_string()`,
+#                                            `.clone()` are the identity)
+#     match path::callee(&L) { Ok(v) => Ok(v[n].clone()), Err(e) => Err(..) }
+#
+#   conditions   X.is_empty()   X.starts_with(p)   X.ends_with(p)   X.contains(c)   X == "text"
+#                !c   c && c   c || c      (p: a character or a non-empty text, c: ONE character)
+#
+# How things are rendered (text = `List Char`):
+#   * the loop body is executed symbolically along every path; what a path appends to BUF is a
+#     concatenation of literal pieces (adjacent ones merged, so `push('"'); push('"')` and
+#     `push_str("\"\"")` are the same text) and of X; a condition already decided on the path is
+#     folded (the second `if X.contains(" ")` of the source costs nothing); `if !c {A} else {B}`
+#     is `if c then B else A`;
+#   * the body up to and including its last `if` is `<name>ArgGen X` (what is written FOR the
+#     value), the straight-line rest — it must not mention X — is the separator; the loop is
+#     `XS.foldl (fun BUF X => BUF ++ <name>ArgGen X ++ separator) []`;
+#   * `s.replace(c, "r")` → `replaceChar c r s` (generated prelude: every `c` replaced by `r`);
+#   * `v[n]` → `v[n]?` with `.panic` for `none`; `Err(..)` → `.err` (the message is not modelled).
+# =============================================================================================
+
+SB_PRELUDE = (
+    "/-- `str::replace(c, r)` for a one-character pattern `c`: every `c` becomes the text `r` -/\n"
+    "def replaceChar (c : Char) (r : Str) (s : Str) : Str := s.flatMap fun x => if x = c then r else [x]\n\n"
+    "/-- outcome of the translated function: the value, `Err(_)` (message not modelled), or a Rust panic -/\n"
+    "inductive EvalOut (α : Type) where\n  | ok (a : α)\n  | err\n  | panic\nderiving DecidableEq, Repr\n\n"
+    "def EvalOut.value? {α : Type} : EvalOut α → Option α\n  | .ok a => some a\n  | _ => none\n\n")
+
+def sb_lit(s):
+    return "[" + ", ".join(lean_char(c) for c in s) + "]"
+
+def sb_pat(e, one_char=False):
+    """a character or text literal used as a pattern"""
+    if e[0] == "char": s = e[1]
+    elif e[0] == "lit_str": s = e[1]
+    else: fail("a pattern that is not a literal")
+    if s == "": fail("an empty pattern")
+    if one_char and len(s) != 1: fail("a pattern of more than one character where only one is supported")
+    return s
+
+def sb_cond(e, var):
+    k = e[0]
+    if k == "bool": return ("const", e[1])
+    if k == "not": return ("not", sb_cond(e[1], var))
+    if k == "bin" and e[1] in ("&&", "||"):
+        return ("and" if e[1] == "&&" else "or", sb_cond(e[2], var), sb_cond(e[3], var))
+    if k == "bin" and e[1] in ("==", "!="):
+        a, b = e[2], e[3]
+        if b == ("id", var): a, b = b, a
+        if a != ("id", var) or b[0] != "lit_str": fail("a comparison outside the subset")
+        c = ("atom", "%s == %s" % (camel(var), sb_lit(b[1])))
+        return c if e[1] == "==" else ("not", c)
+    if k == "method" and e[1] == ("id", var):
+        m, args = e[2], e[3]
+        if m == "is_empty" and not args: return ("atom", "%s.isEmpty" % camel(var))
+        if m == "starts_with" and len(args) == 1: return ("atom", "%s.isPrefixOf %s" % (sb_lit(sb_pat(args[0])), camel(var)))
+        if m == "ends_with" and len(args) == 1: return ("atom", "%s.isSuffixOf %s" % (sb_lit(sb_pat(args[0])), camel(var)))
+        if m == "contains" and len(args) == 1: return ("atom", "%s.contains %s" % (camel(var), lean_char(sb_pat(args[0], True))))
+    fail("a condition outside the subset")
+
+def sb_simp(c, known):
+    k = c[0]
+    if k == "const": return c
+    if k == "atom": return ("const", known[c[1]]) if c[1] in known else c
+    if k == "not":
+        a = sb_simp(c[1], known)
+        if a[0] == "const": return ("const", not a[1])
+        if a[0] == "not": return a[1]
+        return ("not", a)
+    a, b = sb_simp(c[1], known), sb_simp(c[2], known)
+    unit = (k == "and")
+    for x, y in ((a, b), (b, a)):
+        if x[0] == "const": return y if x[1] == unit else ("const", not unit)
+    return (k, a, b)
+
+def sb_rcond(c, top=True):
+    k = c[0]
+    if k == "atom": return c[1] if top else "(%s)" % c[1]
+    if k == "not": return "!%s" % sb_rcond(c[1], False)
+    s = (" && " if k == "and" else " || ").join(sb_rcond(x, False) for x in c[1:])
+    return s if top else "(%s)" % s
+
+def sb_pieces(e, var):
+    """what `push_str(e)` appends"""
+    if e[0] == "lit_str": return [("lit", e[1])]
+    if e == ("id", var): return [("var",)]
+    if e[0] == "method" and e[2] in ("clone", "to_string", "as_str") and not e[3]: return sb_pieces(e[1], var)
+    if e[0] == "macro" and e[1] == "format" and e[2] and e[2][0][0] == "lit_str":
+        fmt, args = e[2][0][1], list(e[2][1:])
+        if "{{" in fmt or "}}" in fmt: fail("escaped braces in format!")
+        parts = fmt.split("{}")
+        if len(parts) != len(args) + 1 or "{" in "".join(parts) or "}" in "".join(parts): fail("format! outside the subset")
+        out = [("lit", parts[0])]
+        for a, p in zip(args, parts[1:]):
+            out += sb_pieces(a, var) + [("lit", p)]
+        return out
+    fail("a pushed text outside the subset")
+
+def sb_exec(stmts, buf, var, pieces, known):
+    if not stmts: return ("leaf", pieces)
+    s, rest = stmts[0], stmts[1:]
+    if s[0] == "if":
+        c = sb_simp(sb_cond(s[1], var), known)
+        then, els = s[2], (s[3] or [])
+        if c[0] == "not": c, then, els = c[1], els, then
+        if c[0] == "const": return sb_exec((then if c[1] else els) + rest, buf, var, pieces, known)
+        kt, ke = dict(known), dict(known)
+        if c[0] == "atom": kt[c[1]] = True; ke[c[1]] = False
+        t = sb_exec(then + rest, buf, var, pieces, kt)
+        e = sb_exec(els + rest, buf, var, pieces, ke)
+        return t if t == e else ("ite", c, t, e)
+    if s[0] in ("exprstmt", "expr") and s[1][0] == "method" and s[1][1] == ("id", buf) and len(s[1][3]) == 1:
+        m, a = s[1][2], s[1][3][0]
+        if m == "push":
+            if a[0] != "char": fail("push of something that is not a character literal")
+            return sb_exec(rest, buf, var, pieces + [("lit", a[1])], known)
+        if m == "push_str":
+            return sb_exec(rest, buf, var, pieces + sb_pieces(a, var), known)
+    fail("a statement of the loop body outside the subset (%s)" % (s[0],))
+
+def sb_rpieces(pieces, var):
+    out = []
+    for p in pieces:
+        if p[0] == "lit" and p[1] == "": continue
+        if p[0] == "lit" and out and out[-1][0] == "lit": out[-1] = ("lit", out[-1][1] + p[1])
+        else: out.append(p)
+    return " ++ ".join(sb_lit(p[1]) if p[0] == "lit" else camel(var) for p in out) if out else "[]"
+
+def sb_render(t, var, indent):
+    pad = "  " * indent
+    if t[0] == "leaf": return pad + sb_rpieces(t[1], var)
+    return "%sif %s then\n%s\n%selse\n%s" % (pad, sb_rcond(t[1]), sb_render(t[2], var, indent + 1), pad, sb_render(t[3], var, indent + 1))
+
+def sb_text(e, env):
+    """a text-valued expression after the loop"""
+    if e[0] == "id":
+        if e[1] not in env: fail("unknown local %s" % e[1])
+        return env[e[1]]
+    if e[0] == "method" and e[2] in ("clone", "to_string", "as_str") and not e[3]: return sb_text(e[1], env)
+    if e[0] == "method" and e[2] == "replace" and len(e[3]) == 2:
+        if e[3][1][0] != "lit_str": fail("replace by something that is not a literal")
+        return "replaceChar %s %s %s" % (lean_char(sb_pat(e[3][0], True)), sb_lit(e[3][1][1]), _fpar(sb_text(e[1], env)))
+    fail("a text expression outside the subset")
+
+def sbtranslate_fn(src, name, callee, lean_callee, arg_name, line_name, fn_name):
+    """-> Lean text of the three definitions `arg_name`, `line_name`, `fn_name`"""
+    body = fn_body(src, name)
+    sig = fn_signature(src, name)
+    if body is None or sig is None: fail("fn %s not found" % name)
+    params, ret = sig
+    if [t for n, t in params] != ["&Vec<String>"] or ret != "Result<Instruction,String>":
+        fail("unexpected signature of %s" % name)
+    xs = params[0][0]
+    stmts = fparse_block(body)
+    if len(stmts) < 3: fail("unexpected shape of %s" % name)
+    s0, loop, tail = stmts[0], stmts[1], stmts[2:]
+    if not (s0[0] == "let" and s0[1][0] == "pid" and s0[2] and s0[3] == ("pathcall", "String", "new", [])):
+        fail("the function does not start with `let mut <buffer> = String::new()`")
+    buf = s0[1][1]
+    if not (loop[0] == "foreach" and len(loop[1]) == 1 and loop[2] == ("id", xs)):
+        fail("no `for <x> in %s` loop after the buffer" % xs)
+    var, lbody = loop[1][0], loop[3]
+    if var in (buf, xs): fail("shadowing")
+    ifs = [i for i, s in enumerate(lbody) if s[0] == "if"]
+    k = ifs[-1] + 1 if ifs else len(lbody)
+    per_arg = sb_exec(lbody[:k], buf, var, [], {})
+    sep = sb_exec(lbody[k:], buf, var, [], {})
+    if sep[0] != "leaf" or any(p[0] != "lit" for p in sep[1]): fail("the code after the last `if` of the loop body mentions the value")
+    sep_text = sb_rpieces(sep[1], var)
+    step = "%s ++ %s %s" % (camel(buf), arg_name, camel(var)) + ("" if sep_text == "[]" else " ++ %s" % sep_text)
+    # after the loop
+    env = {buf: camel(buf)}
+    lets = ["let %s := %s.foldl (fun %s %s => %s) []" % (camel(buf), camel(xs), camel(buf), camel(var), step)]
+    for s in tail[:-1]:
+        if not (s[0] == "let" and s[1][0] == "pid"): fail("a statement after the loop that is not a `let`")
+        if s[1][1] in env or s[1][1] in (xs, var): fail("shadowing")
+        lets.append("let %s := %s" % (camel(s[1][1]), sb_text(s[3], env)))
+        env[s[1][1]] = camel(s[1][1])
+    last = tail[-1]
+    if last[0] == "expr" and last[1][0] == "matchexpr": scrut, arms = last[1][1], last[1][2]
+    elif last[0] == "match": scrut, arms = last[1], last[2]
+    else: fail("the function does not end with a `match`")
+    if not (scrut[0] == "pathcall" and (scrut[1], scrut[2]) == callee and len(scrut[3]) == 1):
+        fail("the final `match` is not on %s::%s(&line)" % callee)
+    line = sb_text(scrut[3][0], env)
+    ok_arm = err_arm = None
+    for pat, abody in arms:
+        if len(abody) != 1 or abody[0][0] != "expr": fail("a match arm that is not one expression")
+        e = abody[0][1]
+        if pat[0] == "pok" and ok_arm is None:
+            if not (e[0] == "ok" and e[1][0] == "method" and e[1][2] == "clone" and not e[1][3] and e[1][1][0] == "index"
+                    and e[1][1][1] == ("id", pat[1]) and e[1][1][2][0] == "num"):
+                fail("the `Ok` arm is not `Ok(<v>[n].clone())`")
+            ok_arm = (camel(pat[1]), e[1][1][2][1])
+        elif pat[0] == "perr" and err_arm is None:
+            if e[0] != "errc": fail("the `Err` arm does not answer `Err(..)`")
+            err_arm = True
+        else: fail("unexpected arms of the final `match`")
+    if ok_arm is None or err_arm is None: fail("the final `match` needs an `Ok` and an `Err` arm")
+    out = "def %s (%s : Str) : Str :=\n%s\n\n" % (arg_name, camel(var), sb_render(per_arg, var, 1))
+    out += "def %s (%s : List Str) : Str :=\n%s\n  %s\n\n" % (line_name, camel(xs), "\n".join("  " + l for l in lets), line)
+    out += "def %s (%s : List Str) : EvalOut Instruction :=\n" % (fn_name, camel(xs))
+    out += "  match %s (%s %s) with\n  | .error _ => .err\n  | .ok %s =>\n" % (lean_callee, line_name, camel(xs), ok_arm[0])
+    out += "    match %s[%d]? with\n    | none => .panic\n    | some v => .ok v\n" % (ok_arm[0], ok_arm[1])
+    return out
